@@ -43,6 +43,12 @@ inductive ScalarOr (α : Type) where
   | array (vs : List α)
   deriving Repr
 
+/-- the vector a scalar-or-array argument stands for after `np.broadcast_to(·, k)`
+(`if np.isscalar(b): b = np.broadcast_to(b, A.shape[0])`) -/
+def ScalarOr.toList {α : Type} (k : Nat) : ScalarOr α → List α
+  | .scalar v => List.replicate k v
+  | .array vs => vs
+
 section algebra
 variable {α : Type} [Zero α] [Add α] [Sub α] [Mul α]
 
@@ -55,13 +61,20 @@ def free (n : Nat) (idx : List Nat) : List Nat :=
 def elim (n : Nat) (idx : List Nat) : List Nat :=
   (List.range n).filter (fun i => idx.contains i)
 
-/-- comparison of `(index, value)` pairs by index only -/
-def keyLe (a b : Nat × α) : Bool := decide (a.1 ≤ b.1)
+/-- insert a pair in front of the first pair whose index is `≥` its own -/
+def insertPair (p : Nat × α) : List (Nat × α) → List (Nat × α)
+  | [] => [p]
+  | q :: qs => if p.1 ≤ q.1 then p :: q :: qs else q :: insertPair p qs
 
-/-- the `(index, value)` pairs in the order of `np.argsort(indices, kind='stable')`
-(core `List.mergeSort` is a stable sort). -/
+/-- stable insertion sort of `(index, value)` pairs by index (pairs with equal indices keep
+their input order, as with `kind='stable'`) -/
+def sortPairs : List (Nat × α) → List (Nat × α)
+  | [] => []
+  | p :: ps => insertPair p (sortPairs ps)
+
+/-- the `(index, value)` pairs in the order of `np.argsort(indices, kind='stable')` -/
 def sortedPairs (idx : List Nat) (vals : List α) : List (Nat × α) :=
-  (idx.zip vals).mergeSort keyLe
+  sortPairs (idx.zip vals)
 
 /-- `np.asarray(values)[np.argsort(indices, kind='stable')]` (for `len(values) ≥ len(indices)`;
 surplus values are never addressed by the permutation, exactly as in numpy). -/
@@ -153,9 +166,7 @@ which the Python statements raise them. -/
 def Sys.build (m n : Nat) (A : List (List α)) (b : ScalarOr α) (idxIsArray : Bool)
     (idx : List Nat) (vals : ScalarOr α) (elimRows : Option (List Nat)) : Except Err (Sys α) :=
   -- if np.isscalar(b): b = np.broadcast_to(b, A.shape[0])
-  let b := match b with
-    | .scalar v => List.replicate m v
-    | .array vs => vs
+  let b := b.toList m
   match valuesOf idxIsArray idx vals with
   | .error e => .error e
   | .ok values =>
